@@ -71,6 +71,20 @@ def run(chk):
         if not gmut:
             chk.ok('C21-K7', (where, 'no graph mutation'))
     chk.floor('graph mutators', mutators, 4)
+    # ---- edge sweep: edges may name paths that are not nodes (inc_ref registers only the referrer), so `remove(p)` must delete every edge to p
+    # on every path, whether or not p is a node
+    from sa.kinds import vspec as VS
+    chk.rule('C21-sweep', 'ModuleGraph::remove deletes the edges pointing at the removed path on every path through the function (also when the path is not a registered node: '
+                          'inc_ref registers only the referrer, so such edges exist)')
+    rm = [f for f in methods if T.norm(f['path']) == 'ModuleGraph::remove']
+    if chk.need(len(rm) == 1, 'ModuleGraph::remove not found'):
+        def sweeps(n):
+            return n.get('k') == 'MCall' and n['n'] in ('retain', 'remove', 'retain_mut') and 'depends_on' in T.show(n['r'])
+        if VS.must_pass(rm[0], sweeps):
+            chk.ok('C21-sweep', 'remove', sample='remove: depends_on.retain(|p| p != path) on every path')
+        else:
+            chk.bad('C21-sweep', 'ModuleGraph::remove', 'sweep', 'ModuleGraph::remove has a path that returns without deleting the edges to the removed path '
+                    '(edges to unregistered paths survive: later queries and sort() still see them)', FILE, rm[0]['line'])
     return ('Coupled-state rule over every method of module::graph::ModuleGraph (resolved receivers and field types from typed HIR). '
             'Decides only the representation invariant index[path]==position; query answers, cycle refusal and topological order are not decided.'), {}
 
